@@ -8,7 +8,6 @@ package main
 // checks (a 503 means nothing was forwarded; a disabled or removed server sees no probe).
 
 import (
-	"runtime"
 	"fmt"
 	"os"
 	"io"
@@ -196,6 +195,9 @@ type DOp struct {
 	Upgrade  bool `json:"upgrade"`
 	Redirect int  `json:"redirect"`
 	WaitMs   int  `json:"wait_ms"`
+	// NoWait (op "trigger"): the next op — a Sync that only disables or removes servers — is issued while the probe this
+	// trigger started is still in flight (its /healthz request has arrived at the stub, the answer has not)
+	NoWait bool `json:"nowait,omitempty"`
 	Stub     int     `json:"stub"`
 	Policy   int     `json:"policy"`
 }
@@ -248,6 +250,9 @@ func readableD(cs DCase) string {
 			fmt.Fprintf(&b, "sync servers=%v subsets=%v /healthz answers=%s", s, subs, answersText(op))
 		case "trigger":
 			fmt.Fprintf(&b, "trigger(%s) /healthz answers=%s", refName(op.Stub), answersText(op))
+			if op.NoWait {
+				b.WriteString(" [the next op does not wait for this probe's answer]")
+			}
 		case "reset":
 			fmt.Fprintf(&b, "ResetTransport(%s)", refName(op.Stub))
 		case "wait":
@@ -372,7 +377,8 @@ func runDispatch(c *rig.Ctx, cs DCase, record bool, st *stats) bool {
 	w.Timeout = quiesceTimeout
 	// the real probe (GET /healthz through the endpoint's own clientset), one at a time, so that every /healthz request a
 	// stub sees can be attributed to the endpoint whose health it decides: it must arrive at that endpoint's server
-	var probeMu sync.Mutex
+	var probeMu sync.Mutex // held for the whole of a probe: never taken by the judge (a health function may not return)
+	var tvMu sync.Mutex
 	var targetViol []string
 	w.HealthFn = func(e *clusters.EndpointInfo) bool {
 		probeMu.Lock()
@@ -389,7 +395,9 @@ func runDispatch(c *rig.Ctx, cs DCase, record bool, st *stats) bool {
 			n := s.probes - before[j]
 			s.mu.Unlock()
 			if n > 0 && !(e.Endpoint == s.url || strings.HasPrefix(e.Endpoint, s.url+"/")) {
+				tvMu.Lock()
 				targetViol = append(targetViol, fmt.Sprintf("the health probe of endpoint %s was received by %s (%d /healthz requests): the answer of another server decides this endpoint's health", e.Endpoint, s.url, n))
+				tvMu.Unlock()
 			}
 		}
 		return r
@@ -407,6 +415,7 @@ func runDispatch(c *rig.Ctx, cs DCase, record bool, st *stats) bool {
 	inconclusiveReq := false
 	upgradeAnswered := false
 	pendingDiff := ""
+	carry := -1
 	for i, d := range cs.Dispatch {
 		k := opIndex[i]
 		setHealth := func(d DOp) {
@@ -418,17 +427,6 @@ func runDispatch(c *rig.Ctx, cs DCase, record bool, st *stats) bool {
 		}
 		workers := -1
 		var opErr string
-		opDone := make(chan struct{})
-		if os.Getenv("VERIF_C03_DEBUG") != "" && d.Op != "wait" {
-			go func() {
-				select {
-				case <-opDone:
-				case <-time.After(3 * time.Second):
-					buf := make([]byte, 1<<20)
-					fmt.Fprintf(os.Stderr, "DEBUG STACKS op %d\n%s\nDEBUG END\n", i, buf[:runtime.Stack(buf, true)])
-				}
-			}()
-		}
 		msg, panicked := rig.Recover(func() {
 			switch d.Op {
 			case "sync":
@@ -462,7 +460,27 @@ func runDispatch(c *rig.Ctx, cs DCase, record bool, st *stats) bool {
 				setHealth(d)
 				w.SetUp(ops[k].Up)
 				if e, ok := w.Load(ops[k].N); ok {
+					st0 := ss[(d.Stub%10)%len(ss)]
+					st0.mu.Lock()
+					n0 := st0.probes
+					st0.mu.Unlock()
 					e.TriggerHealthCheck()
+					if d.NoWait {
+						// go on as soon as the probe has ARRIVED at its server (one-sided: no arrival in time proves nothing)
+						arrived := false
+						for t0 := time.Now(); time.Since(t0) < quiesceTimeout; time.Sleep(2 * time.Millisecond) {
+							st0.mu.Lock()
+							n := st0.probes
+							st0.mu.Unlock()
+							if n > n0 {
+								arrived = true
+								break
+							}
+						}
+						if !arrived {
+							inconclusiveReq = true
+						}
+					}
 				}
 			case "reset":
 				setHealth(d)
@@ -617,7 +635,6 @@ func runDispatch(c *rig.Ctx, cs DCase, record bool, st *stats) bool {
 				matches++
 			}
 		})
-		close(opDone)
 		if panicked {
 			return fail("judge", "c03.panic", fmt.Sprintf("end-to-end op %d (%s) panicked: %s", i, d.Op, msg), nil)
 		}
@@ -631,6 +648,10 @@ func runDispatch(c *rig.Ctx, cs DCase, record bool, st *stats) bool {
 		}
 		if opErr != "" {
 			return fail("diff", "c03.dispatch-error", fmt.Sprintf("end-to-end op %d (%s): %s", i, d.Op, opErr), nil)
+		}
+		if d.Op == "trigger" && d.NoWait && i+1 < len(cs.Dispatch) && cs.Dispatch[i+1].Op == "sync" {
+			carry = k // the probe's record belongs to this op: it started before the next one
+			continue
 		}
 		last := k
 		if d.Op == "request" {
@@ -652,6 +673,19 @@ func runDispatch(c *rig.Ctx, cs DCase, record bool, st *stats) bool {
 		}
 		impl[k].Fired = w.DrainFired()
 		st.fired += len(impl[k].Fired)
+		if carry >= 0 {
+			// the one probe that was in flight (the first record of the triggered endpoint) started before this op
+			rest := []lib.Fired{}
+			for _, f := range impl[k].Fired {
+				if f.N == ops[carry].N && len(impl[carry].Fired) == 0 {
+					impl[carry].Fired = append(impl[carry].Fired, f)
+				} else {
+					rest = append(rest, f)
+				}
+			}
+			impl[k].Fired = rest
+			carry = -1
+		}
 		for _, s := range ss {
 			s.mu.Lock()
 			v := s.viol
@@ -663,9 +697,9 @@ func runDispatch(c *rig.Ctx, cs DCase, record bool, st *stats) bool {
 		if v := w.DrainViol(); len(v) > 0 {
 			return fail("judge", "c03.probe-disabled", fmt.Sprintf("end-to-end op %d (%s): %s", i, d.Op, v[0]), nil)
 		}
-		probeMu.Lock()
+		tvMu.Lock()
 		tv := targetViol
-		probeMu.Unlock()
+		tvMu.Unlock()
 		if len(tv) > 0 {
 			return fail("judge", "c03.probe-wrong-target", fmt.Sprintf("end-to-end op %d (%s): %s", i, d.Op, tv[0]), nil)
 		}
